@@ -11,8 +11,9 @@
   leaf and every list entry), for ANY behaviour of the YAML round trip (faithful, lossy, failing)
   and ANY marshaller.  Model: MM/Model/C35.lean; schema and redacted paths regenerated from the
   compiled package (MM/Gen/C35.lean); tied to the code by T-diff on Config.String().
-  ("never changes the original": checked on every differential case — `orig=same` — see
-  props/C35.py; the functional model has no mutation to state it about.)
+  "never changes the original": C35_original_unchanged over a memory model with aliasing (the
+  functional model above has no mutation to state it about), plus `orig=same` on every
+  differential case.
 -/
 import MM.Lemmas.C35
 
@@ -82,6 +83,53 @@ theorem C35_empty_stays_empty (c : Cfg) (l : Loc) (h : c l = []) : redactAll red
   split
   · rw [h]; exact redact_nil
   · exact h
+
+/-! ### "Producing the redacted rendering never changes the original configuration"
+
+  Memory model with aliasing (MM/Model/C35.lean, `Store`/`CfgVal`/`redactedMem`): the copy made by
+  `cp := *c` shares the backing arrays of the original's lists; Redacted() writes into elements of
+  the lists named in `Gen.C35.writtenLists`.  Whether each of them is detached (cloned) before it
+  is written is a regenerated behavioural fact (`Gen.C35.detached`). -/
+
+/-- Every list whose elements Redacted() writes is detached from the original first. -/
+theorem C35_lists_detached :
+    Gen.C35.detached.length = Gen.C35.writtenLists.length ∧ Gen.C35.detached.all id = true := by decide
+
+/-- With every written list cloned first, no allocated array of the original store changes —
+    whatever the configuration points to, whatever the lists contain. -/
+theorem C35_arrays_unchanged (red : List Path) (detach : Nat → Bool) (n : Nat)
+    (hd : ∀ i, i < n → detach i = true) (m : Store) (c : CfgVal) (x : Nat) (hx : x < m.next) :
+    (redactedMem red detach n m c).1.arrays x = m.arrays x := by
+  unfold redactedMem
+  exact foldl_old red detach _ (fun i hi => hd i (List.mem_range.mp hi)) _ x hx
+
+/-- The model does express the aliasing bug: without the clone, a set secret in a list element of
+    the ORIGINAL is overwritten. -/
+theorem C35_aliasing_expressible :
+    let m : Store := { arrays := fun a => if a = 0 then [fun p => if p = ["tls", "key"] then [0x41] else []] else [], next := 1 }
+    let c : CfgVal := { top := fun _ => [], lists := fun _ => 0 }
+    (redactedMem [["tls", "key"]] (fun _ => false) 1 m c).1.arrays 0 ≠ m.arrays 0 := by
+  intro m c h
+  have := congrArg (fun l => l.map (fun e => e ["tls", "key"])) h
+  simp [redactedMem, stepList, Store.redactArray, m, c, redact, placeholder] at this
+  revert this; decide
+
+
+/-- The original configuration is unchanged: its own fields are held by value (the original `c`
+    is only read by `redactedMem`) and every backing array that existed before the call — in
+    particular those the original's lists point to — has the same contents afterwards. -/
+theorem C35_original_unchanged (m : Store) (c : CfgVal) (x : Nat) (hx : x < m.next) :
+    (redactedMem redactedPaths (fun i => Gen.C35.detached.getD i false) Gen.C35.writtenLists.length m c).1.arrays x
+      = m.arrays x := by
+  refine C35_arrays_unchanged _ _ _ ?_ m c x hx
+  intro i hi
+  have h := C35_lists_detached
+  have hall : ∀ b ∈ Gen.C35.detached, b = true := by simpa [List.all_eq_true] using h.2
+  have hi' : i < Gen.C35.detached.length := by rw [h.1]; exact hi
+  have hg : Gen.C35.detached.getD i false = Gen.C35.detached[i] := by
+    simp [List.getD, List.getElem?_eq_getElem hi']
+  rw [hg]
+  exact hall _ (List.getElem_mem hi')
 
 /-! Non-vacuity: two configurations that differ in a secret value (inside a list entry) satisfy
     the hypotheses of `C35_noninterference`. -/
